@@ -44,7 +44,8 @@ type Op struct {
 	ExE  bool     `json:"exe,omitempty"`
 	NoOp bool     `json:"noopt,omitempty"` // pass nil options
 	Re   string   `json:"re,omitempty"`
-	Big  int      `json:"big,omitempty"` // pad the value to this many bytes (oversized entries)
+	Big  int      `json:"big,omitempty"`  // pad the value to this many bytes (oversized entries)
+	Zero bool     `json:"zero,omitempty"` // pad with zero bytes instead of 'x' (long runs of zeros inside a value)
 	// SF is a "special float" selector for C20: 1 NaN, 2 +Inf, 3 -Inf (applies to F), same +10 for F2
 	SF int `json:"sf,omitempty"`
 }
@@ -93,6 +94,9 @@ func (o Op) String() string {
 	}
 	if o.Big != 0 {
 		add(fmt.Sprintf("big=%d", o.Big))
+	}
+	if o.Zero {
+		add("zero-padded")
 	}
 	if o.SF != 0 {
 		add(fmt.Sprintf("sf=%d", o.SF))
@@ -230,7 +234,8 @@ func (r Res) String() string {
 // IsRead reports whether the op kind never writes.
 func IsRead(k string) bool {
 	switch k {
-	case "get", "getall", "range", "prefix", "psearch",
+	case "adv", // the clock moves while the transaction is open
+		"get", "getall", "range", "prefix", "psearch",
 		"lpeek", "rpeek", "lsize", "lrange",
 		"sismember", "saremembers", "smembers", "scard", "shaskey", "sdiff1", "sdiff2", "sunion1", "sunion2",
 		"zrangebyscore", "zrangebyrank", "zrank", "zrevrank", "zscore", "zgetbykey", "zcount", "zcard", "zmembers", "zpeekmin", "zpeekmax":
@@ -244,6 +249,9 @@ func DS(k string) string {
 	switch k {
 	case "put", "putts", "del", "get", "getall", "range", "prefix", "psearch":
 		return "kv"
+	}
+	if k == "adv" {
+		return "?"
 	}
 	switch k[0] {
 	case 'l', 'r':
